@@ -1,4 +1,308 @@
-/- C17 — model and specification (stub; see HACKING.md) -/
+/-
+  C17 — restraint diagnostics name exactly the atoms that do not exist.
+
+  Text is `List Char` (`Str`). Two groups of definitions:
+
+  MODEL  mirrors the Python string logic, statement by statement
+         cards.py   Restraint._parse_line (class carried by the keyword), Residue.residue_number,
+                    Residues.append / residue_classes / residue_numbers
+         atoms.py   Atoms.atomsdict (keys `NAME_RESINUM` in upper case), get_atom_by_name
+         shelx.py   _assign_atoms_to_restraints, does_atom_exist
+         It mirrors the code WITH the four repairs fixes/C17_1..4 applied; `Legacy` (end of the file) mirrors
+         the code as it was before them, and ShelxProps/C17.lean keeps a `decide` witness per difference.
+
+  SPEC   what the property says, on parsed data: a token is (NAME, suffix kind); a restraint addresses a list
+         of residue numbers per token; `missing` lists the (NAME, residue) pairs that are addressed and do not
+         exist. No string is formatted, split or looked up in a dictionary on this side.
+-/
 namespace Shelx.C17
+
+abbrev Str := List Char
+
+/-! ## shared text helpers (Python built-ins, ASCII) -/
+
+/-- `str.upper()` (ASCII) -/
+def upper (s : Str) : Str := s.map Char.toUpper
+
+/-- `str(n)` for a non-negative int -/
+def natStr (n : Nat) : Str := Nat.toDigits 10 n
+
+/-- `str.isdigit()` (ASCII digits; false for the empty string) -/
+def isDigitStr (s : Str) : Bool := !s.isEmpty && s.all Char.isDigit
+
+/-- `int(s)` for a digit string -/
+def toNat (s : Str) : Nat := Nat.ofDigitChars 10 s 0
+
+/-- `s.split(c)` as (first part, remaining parts): Python's result is never empty -/
+def splitOn (c : Char) : Str → Str × List Str
+  | [] => ([], [])
+  | x :: xs =>
+    let r := splitOn c xs
+    if x = c then ([], r.1 :: r.2) else (x :: r.1, r.2)
+
+/-- `parts[-1]` -/
+def lastPart : Str × List Str → Str
+  | (a, []) => a
+  | (_, b :: bs) => lastPart (b, bs)
+
+/-- dict keys in first-insertion order -/
+def dedup : List Nat → List Nat
+  | [] => []
+  | x :: xs => x :: (dedup xs).filter (· != x)
+
+/-! ## data -/
+
+/-- an atom of the file: name as written (≤ 4 characters), `Atom.resinum` -/
+structure AtomE where
+  name : Str
+  resi : Nat
+deriving Repr, DecidableEq
+
+/-- one RESI card that was registered (`residue_number > 0`): class as `RESI.residue_class` holds it, number -/
+structure ResiE where
+  cls : Str
+  num : Nat
+deriving Repr, DecidableEq
+
+structure File where
+  atoms : List AtomE
+  resis : List ResiE
+deriving Repr
+
+/-- a restraint: `spline[0]` as written, and the non-numeric tokens (`Restraint.atoms`) -/
+structure Restr where
+  kw : Str
+  atoms : List Str
+deriving Repr
+
+inductive PyErr | valueError
+deriving Repr, DecidableEq
+
+/-! ## MODEL -/
+
+/-- `Residues.residue_classes[cls]` if the key exists (`Residues.append` files a class under its upper-case
+    spelling — fix C17_3) -/
+def classNumbers (f : File) (cls : Str) : Option (List Nat) :=
+  match (f.resis.filter fun r => upper r.cls == cls).map (·.num) with
+  | [] => none
+  | l => some l
+
+/-- `Residues.residue_numbers.keys()` -/
+def residueNumbers (f : File) : List Nat := dedup (f.resis.map (·.num))
+
+/-- `Restraint._parse_line`: `self.residue_class` (default `''`). `name, suffix = spline[0].upper().split('_')`
+    raises ValueError for more than one underscore. -/
+def kwClass (kw : Str) : Except PyErr Str :=
+  if '_' ∈ kw then
+    match splitOn '_' (upper kw) with
+    | (_, [suffix]) =>
+      match suffix with
+      | c :: _ => if c.isAlpha then .ok suffix else .ok []       -- re.match(r'[a-zA-Z]', suffix)
+      | [] => .ok []
+    | _ => .error .valueError
+  else .ok []
+
+/-- `Residue.residue_number` (with fix C17_2: `_*` gives the numbers of all residues) -/
+def kwNumbers (f : File) (kw cls : Str) : Except PyErr (List Nat) :=
+  let byClass : List Nat := match classNumbers f cls with | some l => l | none => [0]   -- residue_classes.get(cls, [0])
+  if '_' ∈ kw ∧ '$' ∉ kw then
+    match splitOn '_' (upper kw) with
+    | (_, [suffix]) =>
+      if suffix = ['*'] then .ok (residueNumbers f)
+      else if isDigitStr suffix then .ok [toNat suffix]
+      else .ok byClass
+    | _ => .error .valueError
+  else .ok byClass
+
+/-- key of `Atoms.atomsdict`: `atom.fullname.upper()` -/
+def atomKey (a : AtomE) : Str := upper (a.name ++ '_' :: natStr a.resi)
+
+/-- truthiness of `Atoms.get_atom_by_name(name)` -/
+def getAtomByName (f : File) (name : Str) : Bool :=
+  if '_' ∈ name then (f.atoms.map atomKey).contains (upper name)
+  else if name = ['>'] ∨ name = ['<'] then false
+  else (f.atoms.map atomKey).contains (upper (name ++ ['_', '0']))
+
+/-- `Shelxfile.does_atom_exist(atom_name, bad_atoms, restraint_atom)`: what it appends to `bad_atoms` -/
+def doesAtomExist (f : File) (atomName report : Str) : List Str :=
+  let parts := splitOn '_' atomName
+  let wildcard := decide ('_' ∈ atomName) && (lastPart parts == ['*'])
+  if atomName.head? = some '$' then []
+  else if wildcard then
+    (residueNumbers f).filterMap fun num =>
+      let residueAtom := parts.1 ++ '_' :: natStr num
+      if getAtomByName f residueAtom then none else some residueAtom
+  else if getAtomByName f atomName then [] else [report]
+
+/-- body of the loop over `restraint.atoms` for one token, given `class_without_residues` and
+    `restraint.residue_number` -/
+def checkToken (f : File) (classWithout : Bool) (nums : List Nat) (tok : Str) : List Str :=
+  if tok = ['>'] ∨ tok = ['<'] ∨ tok = ['='] ∨ '$' ∈ tok then []            -- `continue` (fix C17_1: `'$' in`)
+  else if classWithout = true ∧ '_' ∉ tok then []                             -- `continue` (fix C17_4)
+  else if nums ≠ [0] ∧ '_' ∉ tok then                                         -- (fix C17_2: was `class or sum > 0`)
+    nums.flatMap fun n => doesAtomExist f (tok ++ '_' :: natStr n) (tok ++ '_' :: natStr n)
+  else if '_' ∈ tok then doesAtomExist f tok tok
+  else doesAtomExist f (tok ++ ['_', '0']) tok
+
+structure Outcome where
+  bad : List Str          -- `bad_atoms` before `set()`/sort
+  classMsg : Bool         -- "has a residue class, but no residues are defined"
+deriving Repr, DecidableEq
+
+/-- one pass of the loop of `_assign_atoms_to_restraints` for restraint `r` -/
+def assign (f : File) (r : Restr) : Except PyErr Outcome := do
+  let cls ← kwClass r.kw
+  let nums ← kwNumbers f r.kw cls
+  let classWithout := cls ≠ [] && nums.sum == 0          -- bool(residue_class) and sum(residue_number) == 0
+  return { bad := r.atoms.flatMap (checkToken f classWithout nums), classMsg := classWithout }
+
+/-- does the restraint produce any line in `restraint_errors`? -/
+def Outcome.anyMessage (o : Outcome) : Bool := !o.bad.isEmpty || o.classMsg
+
+/-! ## reading a reported name back (used by the harness on the implementation's message and by the theorems) -/
+
+/-- text before the first `_` -/
+def beforeUS (s : Str) : Str := s.takeWhile (· != '_')
+
+/-- text after the first `_`, if there is one -/
+def afterUS (s : Str) : Option Str :=
+  match s.dropWhile (· != '_') with
+  | [] => none
+  | _ :: t => some t
+
+/-- a reported name `C1`, `C1_3` denotes (NAME, residue); no suffix means residue 0 -/
+def parseReport (s : Str) : Str × Nat :=
+  (upper (beforeUS s), match afterUS s with | none => 0 | some d => toNat d)
+
+def reported (o : Outcome) : List (Str × Nat) := o.bad.map parseReport
+
+/-! ## SPEC -/
+
+inductive Sfx
+  | none                -- no suffix
+  | num (n : Nat)       -- `_12`
+  | star                -- `_*`
+  | cls (c : Str)       -- `_CCF3`, keyword only
+  | other               -- `_$1` and anything else
+deriving Repr, DecidableEq
+
+def classify (sfx : Option Str) : Sfx :=
+  match sfx with
+  | .none => .none
+  | some [] => .other
+  | some (c :: cs) =>
+    if c :: cs = ['*'] then .star
+    else if isDigitStr (c :: cs) then .num (toNat (c :: cs))
+    else if c.isAlpha then .cls (c :: cs)
+    else .other
+
+def tokSfx (tok : Str) : Sfx := classify (afterUS tok)
+
+/-- SHELXL does not distinguish case: the keyword and the class it carries are read in upper case -/
+def kwSfx (kw : Str) : Sfx := classify (afterUS (upper kw))
+
+/-- all residues a RESI card defines -/
+def allResidues (f : File) : List Nat := f.resis.map (·.num)
+
+/-- residues of class `c` (given in upper case); the class of a residue is compared in upper case -/
+def residuesOfClass (f : File) (c : Str) : List Nat :=
+  (f.resis.filter fun r => upper r.cls == c).map (·.num)
+
+/-- element wildcards `$C`, symmetry equivalents `C1_$1` (anything with `$`) and the operators are not names -/
+def addressable (tok : Str) : Bool :=
+  !(tok.contains '$') && tok != ['<'] && tok != ['>'] && tok != ['=']
+
+/-- the residues the keyword addresses -/
+def kwAddressed (f : File) (kw : Str) : List Nat :=
+  match kwSfx kw with
+  | .none => [0]
+  | .num n => [n]
+  | .star => allResidues f
+  | .cls c => residuesOfClass f c
+  | .other => []
+
+/-- the residue numbers in which token `tok` of restraint `r` has to exist -/
+def addressed (f : File) (r : Restr) (tok : Str) : List Nat :=
+  match tokSfx tok with
+  | .num n => [n]
+  | .star => allResidues f
+  | .none => kwAddressed f r.kw
+  | _ => []
+
+/-- the keyword names a class that no residue has (then the class message is the diagnostic) -/
+def classUnknown (f : File) (r : Restr) : Bool :=
+  match kwSfx r.kw with
+  | .cls c => (residuesOfClass f c).isEmpty
+  | _ => false
+
+def atomExists (f : File) (name : Str) (n : Nat) : Bool :=
+  f.atoms.any fun a => upper a.name == name && a.resi == n
+
+def missing (f : File) (r : Restr) : List (Str × Nat) :=
+  r.atoms.flatMap fun tok =>
+    if addressable tok then
+      ((addressed f r tok).filter fun n => !atomExists f (upper (beforeUS tok)) n).map fun n => (upper (beforeUS tok), n)
+    else []
+
+/-! ## the domain of the theorems (decidable) -/
+
+/-- atom names of the file carry no underscore (they are ≤ 4 characters cut from the atom line); what the
+    registry holds comes from RESI cards with a number > 0, and the class slot is never empty (a card without
+    class is filed under its own first word, `RESI`) -/
+def wfFile (f : File) : Bool :=
+  (f.atoms.all fun a => !(a.name.contains '_')) && (f.resis.all fun r => r.num > 0 && r.cls != [])
+
+/-- the keyword has no `$` and at most one `_`; what follows is `*`, a number or a class name (starts with a letter) -/
+def wfKw (kw : Str) : Bool :=
+  !(kw.contains '$') &&
+  match afterUS (upper kw) with
+  | none => true
+  | some s => !(s.contains '_') && (s == ['*'] || isDigitStr s || (match s with | c :: _ => c.isAlpha | [] => false))
+
+/-- a token is an operator, carries `$`, is a bare name, or is `NAME_*` / `NAME_n` with `n` written the way
+    `str(int)` writes it (no leading zeros: `C1_01` is excluded, see `noncanonical_number_reported`) -/
+def wfTok (tok : Str) : Bool :=
+  !(addressable tok) ||
+  (match afterUS tok with
+   | none => true
+   | some s => !(s.contains '_') && (s == ['*'] || (isDigitStr s && natStr (toNat s) == s)))
+
+def WellFormed (f : File) (r : Restr) : Prop :=
+  wfFile f = true ∧ wfKw r.kw = true ∧ ∀ t ∈ r.atoms, wfTok t = true
+
+instance (f : File) (r : Restr) : Decidable (WellFormed f r) := by unfold WellFormed; infer_instance
+
+/-! ## Legacy: the code before fixes/C17_1..4 (kept for the `decide` witnesses) -/
+namespace Legacy
+
+/-- `residue_classes.get(cls)`: classes filed as written on the RESI card -/
+def classNumbers (f : File) (cls : Str) : Option (List Nat) :=
+  match (f.resis.filter fun r => r.cls == cls).map (·.num) with
+  | [] => none
+  | l => some l
+
+/-- `Residue.residue_number`: the `'*' in suffix` test sits under `suffix.isdigit()` and is dead; an unknown
+    class (and `''`) falls back to `[0]` -/
+def kwNumbers (f : File) (kw cls : Str) : Except PyErr (List Nat) :=
+  let byClass : List Nat := match classNumbers f cls with | some l => l | none => [0]
+  if '_' ∈ kw ∧ '$' ∉ kw then
+    match splitOn '_' (upper kw) with
+    | (_, [suffix]) => if isDigitStr suffix then .ok [toNat suffix] else .ok byClass
+    | _ => .error .valueError
+  else .ok byClass
+
+def checkToken (f : File) (cls : Str) (nums : List Nat) (tok : Str) : List Str :=
+  if tok = ['>'] ∨ tok = ['<'] ∨ tok = ['='] then []
+  else if (cls ≠ [] ∨ nums.sum > 0) ∧ '_' ∉ tok then
+    nums.flatMap fun n => doesAtomExist f (tok ++ '_' :: natStr n) (tok ++ '_' :: natStr n)
+  else if '_' ∈ tok then doesAtomExist f tok tok
+  else doesAtomExist f (tok ++ ['_', '0']) tok
+
+def assign (f : File) (r : Restr) : Except PyErr Outcome := do
+  let cls ← kwClass r.kw
+  let nums ← kwNumbers f r.kw cls
+  return { bad := r.atoms.flatMap (checkToken f cls nums), classMsg := cls ≠ [] && nums.sum == 0 }
+
+end Legacy
 
 end Shelx.C17
